@@ -18,6 +18,7 @@
 package ucfg
 
 import (
+	"math"
 	"reflect"
 	"regexp"
 	"time"
@@ -796,10 +797,20 @@ func reifyDuration(
 	switch v := val.(type) {
 	case *cfgInt:
 		d = time.Duration(v.i) * time.Second
+		if d/time.Second != time.Duration(v.i) {
+			err = ErrOverflow
+		}
 	case *cfgUint:
 		d = time.Duration(v.u) * time.Second
+		if v.u > uint64(math.MaxInt64/time.Second) {
+			err = ErrOverflow
+		}
 	case *cfgFloat:
-		d = time.Duration(v.f * float64(time.Second))
+		ns := v.f * float64(time.Second)
+		d = time.Duration(ns)
+		if math.IsNaN(ns) || ns < math.MinInt64 || ns >= math.MaxInt64 {
+			err = ErrOverflow
+		}
 	case *cfgString:
 		d, err = time.ParseDuration(v.s)
 	default:
